@@ -492,7 +492,7 @@ def join_configs(ctx):
             "Atoms <- AtomsTyping": "Atoms <- %s" % atoms, "MaxLeaves = 4": "MaxLeaves = %d" % leaves, "MaxArgs = 5": "MaxArgs = %d" % args,
             "MaxArity = 4": "MaxArity = %d" % arity, "MaxObjs = 3": "MaxObjs = %d" % nobjs, "AllowEach = TRUE": "AllowEach = %s" % ("TRUE" if each else "FALSE"),
             'Sched = "sweep"': 'Sched = "%s"' % sched, "MaxCalls = 2": "MaxCalls = %d" % ncalls}))
-    add("typing", "AtomsTyping", 4, 5, 4, 3, True)
+    add("typing", "AtomsTyping", 4, 4 if q else 5, 4, 3, True)
     add("variety", "AtomsVariety", 4, 4, 4, 1, False)
     add("any-order", "AtomsSmall", 3, 4, 3, 2, True, "any", 2 if q else 3)
     if not q:
